@@ -275,6 +275,16 @@ Definition decode_map (g : game) (bs : bytes) : result bytes :=
       let name := fst (read_z n' r4) in if utf8_valid name then Ok name else Err EUnicode
   end.
 
+(* EntityMethod.create_from_stream: unnamed arguments positionally, named ones into a dict (a later duplicate name overwrites) *)
+Fixpoint split_args_acc (names : list (option string)) (vs : list value) (ps : list value) (ks : list (string * value))
+  : list value * list (string * value) :=
+  match names, vs with
+  | None :: nr, v :: vr => split_args_acc nr vr (ps ++ [v]) ks
+  | Some k :: nr, v :: vr => split_args_acc nr vr ps (assoc_set k v ks)
+  | _, _ => (ps, ks)
+  end.
+Definition split_args (names : list (option string)) (vs : list value) := split_args_acc names vs [] [].
+
 Definition lookup_entity (w : world) (id : Z) : result entity :=
   match zassoc_get id (w_entities w) with Some e => Ok e | None => Err EKey end.
 
@@ -402,15 +412,8 @@ Definition step_class (w : world) (c : pclass) (pl : bytes) : world * option err
           match (match assoc_get (en_type e) (s_mcounts St) with Some l => nth (N.to_nat mid) l O | None => O end) with
           | O => Ok w                                  (* unsubscribed: not decoded *)
           | n =>
-            let fix args (l : list (option string * dtype)) (bs : bytes) : result (list value * list (string * value)) :=
-              match l with
-              | [] => Ok ([], [])
-              | (nm, t) :: r =>
-                  '(v, rest) <- decode (Z.to_nat (m_hdr mt)) t bs ;;
-                  '(ps, ks) <- args r rest ;;
-                  match nm with None => Ok (v :: ps, ks) | Some k => Ok (ps, assoc_set k v ks) end
-              end in
-            '(ps, ks) <- args (m_args mt) data ;;
+            '(vs, _) <- decode_seq (Z.to_nat (m_hdr mt)) (map snd (m_args mt)) data ;;
+            let '(ps, ks) := split_args (map fst (m_args mt)) vs in
             Ok (log w (repeat_call n (CMethod key (en_id e) ps ks)))
           end
         end)
@@ -439,6 +442,37 @@ Definition step_class (w : world) (c : pclass) (pl : bytes) : world * option err
 
 Fixpoint table_get (k : N) (t : list (N * pclass)) : option pclass :=
   match t with [] => None | (k', c) :: r => if k =? k' then Some c else table_get k r end.
+
+
+(* observation functions for the payload-consumption check (C03): which (type_member) key a method / property packet
+   addresses in the current world and how many payload bytes its declared types leave over.
+   Err = the packet does not reach the decoder (short header, unknown entity, id out of range);
+   Ok (key, None) = the declared types fail on the payload. *)
+Definition method_payload_rest (w : world) (pl : bytes) : result (string * option nat) :=
+  '(id, r1) <- get_u 4 pl ;; '(mid, r2) <- get_u 4 r1 ;; '(data, _) <- binstream r2 ;;
+  e <- lookup_entity w (Z.of_N id) ;; m <- model_of (en_type e) ;;
+  match nth_error (e_methods m) (N.to_nat mid) with
+  | None => Err EIndex
+  | Some mt =>
+    let key := key_of (en_type e) (m_name mt) in
+    match decode_seq (Z.to_nat (m_hdr mt)) (map snd (m_args mt)) data with
+    | Ok (_, rest) => Ok (key, Some (length rest))
+    | Err _ => Ok (key, None)
+    end
+  end.
+Definition prop_payload_rest (w : world) (pl : bytes) : result (string * option nat) :=
+  '(id, r1) <- get_u 4 pl ;; '(pid, r2) <- get_u 4 r1 ;; '(val, _) <- binstream r2 ;;
+  e <- lookup_entity w (Z.of_N id) ;; m <- model_of (en_type e) ;;
+  match nth_error (e_client m) (N.to_nat pid) with
+  | None => Err EIndex
+  | Some p =>
+    let key := key_of (en_type e) (p_name p) in
+    match decode 1 (p_type p) val with
+    | Ok (_, rest) => Ok (key, Some (length rest))
+    | Err _ => Ok (key, None)
+    end
+  end.
+Definition class_of (p : packet) : option pclass := table_get (pk_type p) (s_table St).
 
 Definition step (w : world) (p : packet) : world * option error :=
   match table_get (pk_type p) (s_table St) with
